@@ -2136,3 +2136,38 @@ package pongo2
 //@   ensures {C18} @a-string-is-read-as-the-decimal-number-it-spells RVKind(Resolved(v.val)) == 24 ==> (calls("strconv.ParseFloat") == 1 && (lastresult("strconv.ParseFloat", 1) == nil ==> r0 == lastresult("strconv.ParseFloat")))
 //@ func (*Value).CanSlice
 //@   ensures {C18} @arrays-slices-and-strings-can-be-sliced r0 == (RVKind(Resolved(v.val)) == 17 || RVKind(Resolved(v.val)) == 23 || RVKind(Resolved(v.val)) == 24)
+
+// ---- round eight ----
+// a filter name is only ever parsed where the ban list is consulted (C03, C19)
+//@ callers {C03,C19} (*Parser).parseFilter (*Parser).parseVariableOrLiteralWithFilter tagFilterParser
+// extends refuses a template only for the reasons it states (C10, C11): not on root level, a second parent, no
+// name given, more than one argument - or because the parent could not be compiled
+//@ func tagExtendsParser
+//@   at (*Parser).Error#0 requires {C10,C11} @only-below-root-level doc.template.level > 1
+//@   at (*Parser).Error#1 requires {C10,C11} @only-for-a-second-parent doc.template.parent != nil
+//@   at (*Parser).Error#2 requires {C10,C11} @only-without-a-name lastresult("(*Parser).MatchType") == nil
+//@   at (*Parser).Error#3 requires {C10,C11} @only-with-further-arguments calls("(*TemplateSet).FromFile") == 1
+//@   ensures {C10,C11} @refused-only-for-a-stated-reason-or-a-parent-that-does-not-compile r1 != nil ==> (calls("(*Parser).Error") == 1 || (calls("(*TemplateSet).FromFile") == 1 && lastresult("(*TemplateSet).FromFile", 1) != nil))
+// FromFile compiles everything the loader's reader delivers (C06, C11)
+//@ func (*TemplateSet).FromFile
+//@   at io.ReadAll requires {C06,C11} @reads-the-reader-the-loader-handed-out-to-its-end arg0 == lastresult("(*TemplateSet).resolveTemplate", 2)
+//@   at newTemplate requires {C06,C11} @compiles-everything-that-was-read arg0 == set && arg1 == filename && !arg2 && arg3 == lastresult("io.ReadAll")
+// every execution entry point validates a context that is given and not empty, before anything is rendered (C12, C14)
+//@ func (*Template).newContextForExecution
+//@   at newExecutionContext requires {C12,C14} @every-key-of-a-given-context-is-an-identifier (context != nil && len(newContext) > 0) ==> (forall k string :: has(newContext, k) ==> IsIdentifier(k))
+// spaceless works on the whole rendered body (C15): white space between a tag that ends one piece of output and a
+// tag that starts the next is between tags too
+//@ func (*tagSpacelessNode).Execute
+//@   ensures {C15} @body-the-body-is-rendered-once-into-a-buffer-of-this-execution calls("(*NodeWrapper).Execute") == 1
+//@   at (*NodeWrapper).Execute requires {C15} @into-a-buffer-not-to-the-output arg0 == node.wrapper && arg1 == ctx && fresh(arg2) && typeis(arg2, "*bytes.Buffer")
+//@   at TemplateWriter.WriteString requires {C15} @the-stripped-text-of-the-whole-body-is-written-once lastresult("(*NodeWrapper).Execute") == nil && arg0 == writer
+// the filter tag hands each filter the value the previous filter returned - not its text (C19)
+//@ func (*tagFilterNode).Execute
+//@   invariant 0 {C19} @the-running-value-is-what-the-last-filter-returned rangeindex >= 0 ==> value == lastresult("ApplyFilter")
+//@   at ApplyFilter requires {C19} @each-filter-gets-the-value-the-previous-one-returned rangeindex + 1 > 0 ==> arg1 == lastresult("ApplyFilter")
+//@   at TemplateWriter.WriteString requires {C19} @the-result-of-the-last-filter-is-written len(node.filterChain) > 0 ==> arg1 == VString(lastresult("ApplyFilter"))
+// a number token starts with a digit: a sign in front of a literal is an operator, so that a filter binds tighter
+// than the sign for literals as it does for names (C07, C19)
+//@ axiom forall r int :: runein(tokenDigits, r) ==> (48 <= r && r <= 57)
+//@ func (*lexer).stateCode
+//@   ensures {C07,C19} @a-number-is-entered-with-exactly-one-digit-taken (r0 != nil && fnis(r0, "(*lexer).stateNumber")) ==> (l.pos == l.start + 1 && 48 <= strat(l.input, l.start) && strat(l.input, l.start) <= 57)
